@@ -288,3 +288,25 @@ func (f *FactoryAwareBare) Init() error {
 	f.Log.Add("init", f.Nm)
 	return nil
 }
+
+func (t *TopCloser) Bind(r *Run) {
+	if t.Log == nil {
+		t.Log = r.Log
+	}
+}
+
+// CachingCloser is a decorator-style closer: it embeds the interface it decorates (wired by name) and has a
+// Close of its own. It is a closer in its own right, whenever it is created.
+type CachingCloser struct {
+	definition.CloserComponent `wire:"inner-closer"`
+	Nm                         string
+	Log                        *mon.Lifecycle
+}
+
+func (c *CachingCloser) Naming() string { return c.Nm }
+func (c *CachingCloser) Bind(r *Run)    { c.Log = r.Log }
+func (c *CachingCloser) Close() error {
+	c.Log.Add("close-begin", c.Nm)
+	c.Log.Add("close-end", c.Nm)
+	return nil
+}
